@@ -956,13 +956,32 @@ class Joined:
 class Field:
     """name, or name '=' value with an '='-free name: partition('=') is known from the construction."""
 
-    def __init__(self, name, has_eq, value):
-        self.name, self.has_eq, self.value = name, has_eq, value
+    def __init__(self, name, has_eq, value, text):
+        self.name, self.has_eq, self.value, self.text = name, has_eq, value, text
 
     def partition(self, sep):
         if sep != '=':
             raise Unreached('Field.partition(%r)' % (sep,))
         return (self.name, '=', self.value) if self.has_eq else (self.name, '', '')
+
+    # anything else (only reached by modified code) is answered on the text itself
+    def rpartition(self, sep):
+        return self.text.rpartition(sep)
+
+    def split(self, *a):
+        return self.text.split(*a)
+
+    def find(self, *a):
+        return self.text.find(*a)
+
+    def __pyvc_contains__(self, sub):
+        return contains(self.text, sub)
+
+    def __pyvc_len__(self):
+        return Len(self.text)
+
+    def __pyvc_truth__(self):
+        return Len(self.text) > 0
 
     def atoms(self):
         return [self.name] + ([self.value] if self.has_eq else [])
@@ -1042,8 +1061,8 @@ def mk_query_string(v, n, csv, max_pieces):
         v.assume(And(Not(contains(name, '&')), Not(contains(name, '='))))
         has_eq = bool(v.choose(2, 'field%d-has-equals-sign' % i))
         value = mk_value(v, i, csv, max_pieces) if has_eq else ''
-        fields.append(Field(name, has_eq, value))
         texts.append(name + '=' + value if has_eq else name)
+        fields.append(Field(name, has_eq, value, texts[-1]))
     if v.concrete:
         return '&'.join(texts), texts
     return QueryString(fields), fields
@@ -1127,27 +1146,539 @@ def _parse_query_string(v):
 
 
 def _variants():
+    """(name, fix, tier): the case split is only about run time per harness; together the variants cover every combination."""
     for n in (1, 2, 3):
         for k in (0, 1):
             for c in (0, 1):
                 fx = {'fields': n - 1, 'keep_blank': k, 'csv': c}
                 if n > 1:
                     fx['options-by-keyword'] = 1  # the calling convention is explored with one field
-                if n == 3 and c == 1:
-                    # the largest case is split by the shape of the first two fields (run time per harness)
+                base = 'fields=%d,keep_blank=%d,csv=%d' % (n, k, c)
+                if n < 3 or (c == 0 and k == 0):
+                    yield base, fx, 'quick'
+                elif c == 0:
                     for e0 in (0, 1):
-                        for e1 in (0, 1):
-                            yield 'fields=3,keep_blank=%d,csv=1,eq0=%d,eq1=%d' % (k, e0, e1), dict(fx, **{'field0-has-equals-sign': e0, 'field1-has-equals-sign': e1})
+                        yield '%s,eq0=%d' % (base, e0), dict(fx, **{'field0-has-equals-sign': e0}), 'quick'
                 else:
-                    yield 'fields=%d,keep_blank=%d,csv=%d' % (n, k, c), fx
+                    # three fields with comma lists: every loop-body branch is already exercised with two fields; thorough tier only,
+                    # and the third value has a single element (run time)
+                    shapes = [(0, 0), (1, 0), (1, 1)]  # (has '=', number of elements - 1)
+                    for e0, m0 in shapes:
+                        for e1, m1 in shapes:
+                            for e2 in (0, 1):
+                                yield ('%s,eq=%d%d%d,elements=%d%d' % (base, e0, e1, e2, m0 + 1, m1 + 1),
+                                       dict(fx, **{'field0-has-equals-sign': e0, 'field1-has-equals-sign': e1, 'field2-has-equals-sign': e2,
+                                                   'elements-of-value0': m0, 'elements-of-value1': m1, 'elements-of-value2': 0}), 'thorough')
 
 
-for _name, _fx in _variants():
-    harness(PROP, PQS, name='parse_query_string[%s]' % _name, setup=_parser_setup, fix=_fx, max_paths=200000)(_parse_query_string)
+for _name, _fx, _tier in _variants():
+    harness(PROP, PQS, name='parse_query_string[%s]' % _name, setup=_parser_setup, fix=_fx, max_paths=200000, tier=_tier)(_parse_query_string)
+
+
+# ---------------------------------------------------------------------------
+# wiring: Request.__init__ (WSGI, ASGI) and the deprecated form-body merge hand the option flags to the parser
+
+
+@stubclass
+class ParserProbe:
+    """parse_query_string as its callers see it: records the call, returns an opaque mapping."""
+
+    def __init__(self, result=None):
+        self.calls = []
+        self.result = result if result is not None else Doc('parsed mapping')
+
+    def __call__(self, *args, **kwargs):
+        self.calls.append((args, kwargs))
+        return self.result
+
+
+def request_options(v, **extra):
+    keep = v.bool('keep_blank_qs_values')
+    csv = v.bool('auto_parse_qs_csv')
+    opts = Options(keep_blank_qs_values=keep, auto_parse_qs_csv=csv, strip_url_path_trailing_slash=False, _auto_parse_form_urlencoded=False,
+                   default_media_type='application/json', media_handlers=None, **extra)
+    return opts, keep, csv
+
+
+def same_flag(a, b):
+    if isinstance(a, SBool) or isinstance(b, SBool):
+        return a is b
+    return isinstance(a, bool) and a is b
+
+
+def check_parser_call(v, probe, text, keep, csv):
+    ok = len(probe.calls) == 1
+    v.check('parser-called-exactly-once', ok)
+    if not ok:
+        return
+    args, kwargs = probe.calls[0]
+    got = dict(zip(('query_string', 'keep_blank', 'csv'), args))
+    got.update(kwargs)
+    v.check('parser-receives-the-text-and-both-option-flags',
+            And(sorted(got) == ['csv', 'keep_blank', 'query_string'] and len(args) + len(kwargs) == 3,
+                str_eq(got.get('query_string'), text), same_flag(got.get('keep_blank'), keep), same_flag(got.get('csv'), csv)))
+
+
+def _wsgi_env(v):
+    from falcon import testing
+
+    return testing.create_environ(path='/things', method='GET')
+
+
+@harness(PROP, REQ + '.__init__', name='wsgi_params_wiring', inline=['falcon.*'])
+def wsgi_params_wiring(v):
+    env = _wsgi_env(v)
+    has_qs = v.choose(2, 'QUERY_STRING-in-environ?')
+    qs = v.str('query_string') if has_qs else None
+    if has_qs:
+        env['QUERY_STRING'] = qs
+    else:
+        env.pop('QUERY_STRING', None)
+    opts, keep, csv = request_options(v)
+    probe = ParserProbe()
+    req = v.obj(REQ)
+    with patched(v, 'falcon.request', 'parse_query_string', probe):
+        out = v.call(req, env, opts)
+    v.check('construction-never-raises-whatever-the-query-string', out.exc is None)
+    if out.exc is not None:
+        return
+    params = v.get(req, '_params')
+    if not has_qs or Len(qs) == 0:
+        v.check('no-query-string-gives-the-empty-mapping-without-parsing', isinstance(params, dict) and len(params) == 0 and len(probe.calls) == 0)
+        v.cover('no-query-string')
+        return
+    check_parser_call(v, probe, qs, keep, csv)
+    v.check('params-is-what-the-parser-returned', params is probe.result)
+    v.check('query_string-attribute-is-the-raw-text', str_eq(v.get(req, 'query_string'), qs))
+    v.cover('parsed')
+
+
+UTF8_DECODE = z3.Function('utf8.decode', _S, _S)
+
+
+def _codec_utf8(ctx, direction, s, enc, errors):
+    """bytes.decode('utf-8') of well-formed UTF-8 is total (ASSUMPTIONS for the ASGI query string); the text is a function of the bytes, empty iff they are."""
+    if enc.lower().replace('_', '-') in ('utf-8', 'utf8') and errors == 'strict':
+        if direction == 'encode':
+            return SStr(UTF8(s.t), 'bytes')
+        r = UTF8_DECODE(s.t)
+        ctx.assume(mk_bool((z3.Length(r) == 0) == (z3.Length(s.t) == 0)))
+        return SStr(r, 'str')
+    raise Unreached('%s with codec %r has no model here' % (direction, enc))
+
+
+def _asgi_setup(reg, ex):
+    ex.codec_handler = _codec_utf8
+
+
+@harness(PROP, AREQ + '.__init__', name='asgi_params_wiring', inline=['falcon.*'], setup=_asgi_setup)
+def asgi_params_wiring(v):
+    from falcon import testing
+
+    scope = testing.create_scope(path='/things', method='GET')
+    raw = v.bytes('query_string')
+    if v.concrete:
+        try:
+            raw.decode()
+        except UnicodeDecodeError:
+            return  # outside the assumption (see ASSUMPTIONS): the ASGI server hands over percent-encoded ASCII
+    scope['query_string'] = raw
+    opts, keep, csv = request_options(v)
+    probe = ParserProbe()
+    req = v.obj(AREQ)
+    with patched(v, 'falcon.asgi.request', 'parse_query_string', probe):
+        out = v.call(req, scope, Doc('receive callable'), None, opts)
+    v.check('construction-never-raises-whatever-the-query-string', out.exc is None)
+    if out.exc is not None:
+        return
+    params = v.get(req, '_params')
+    text = SStr(UTF8_DECODE(raw.t), 'str') if sym(raw) else raw.decode()
+    if Len(raw) == 0:
+        v.check('no-query-string-gives-the-empty-mapping-without-parsing', isinstance(params, dict) and len(params) == 0 and len(probe.calls) == 0)
+        v.cover('no-query-string')
+        return
+    check_parser_call(v, probe, text, keep, csv)
+    v.check('params-is-what-the-parser-returned', params is probe.result)
+    v.cover('parsed')
+
+
+@stubclass
+class BodyStream:
+    def __init__(self, body):
+        self.body = body
+        self.reads = []
+
+    def read(self, size=None):
+        self.reads.append(size)
+        return self.body
+
+
+@harness(PROP, REQ + '._parse_form_urlencoded', name='form_body_wiring', inline=[REQ + '.content_length', REQ + '.get_header*'])
+def form_body_wiring(v):
+    """The deprecated auto_parse_form_urlencoded merge: the body is parsed with the same two options and merged over the query parameters."""
+    body = b'b=2&c=3'
+    opts, keep, csv = request_options(v)
+    extra = {'b': 'from-the-body', 'c': ['3']}
+    probe = ParserProbe(extra)
+    params = {'a': '1', 'b': 'from-the-query'}
+    stream = BodyStream(body)
+    req = v.obj(REQ, _params=params, options=opts, stream=stream, env={'CONTENT_LENGTH': str(len(body))})
+    with patched(v, 'falcon.request', 'parse_query_string', probe):
+        out = v.call(req)
+    v.check('no-exception', out.exc is None)
+    if out.exc is not None:
+        return
+    check_parser_call(v, probe, body.decode('ascii'), keep, csv)
+    v.check('body-parameters-merged-over-the-query-parameters', v.get(req, '_params') is params and params == {'a': '1', 'b': 'from-the-body', 'c': ['3']})
+    v.cover('merged')
+
+
+# ---------------------------------------------------------------------------
+# to_query_str: structure of the rendered string
+
+MISC = 'falcon.util.misc'
+ENC = z3.Function('falcon.uri.encode_value', _S, _S)
+
+
+def encode_value_ref(s):
+    """falcon.util.uri.encode_value (contract of C10): a total function str -> str."""
+    if not sym(s):
+        import importlib
+
+        return importlib.import_module(URI).encode_value(s)
+    return SStr(ENC(s.t), 'str')
+
+
+def _to_query_str_setup(reg, ex):
+    import builtins
+    import importlib
+
+    reg.add_model(importlib.import_module(MISC).encode_value, lambda I, s: encode_value_ref(s))
+    reg.add_model(builtins.map, lambda I, f, xs: [I.call(f, [x], {}) for x in I.iterate(xs)])
+
+
+def render_reference(items, comma_delimited_lists, prefix):
+    """The query string the documentation of to_query_str describes, for an ordered list of (key, value)."""
+    parts = []
+    for k, val in items:
+        ek = encode_value_ref(k)
+        if val is True or val is False:
+            parts.append(ek + '=' + ('true' if val else 'false'))
+        elif isinstance(val, list):
+            rendered = [('true' if x else 'false') if (x is True or x is False) and not comma_delimited_lists else
+                        encode_value_ref(x if isinstance(x, (str, SStr)) else str(x)) for x in val]
+            if comma_delimited_lists:
+                joined = ''
+                for i, r in enumerate(rendered):
+                    joined = (joined + ',' + r) if i else r
+                parts.append(ek + '=' + joined)
+            else:
+                parts.extend(ek + '=' + r for r in rendered)
+        else:
+            parts.append(ek + '=' + encode_value_ref(val if isinstance(val, (str, SStr)) else str(val)))
+    out = ''
+    for i, part in enumerate(parts):
+        out = (out + '&' + part) if i else part
+    if not parts:
+        return ''  # nothing to render (no parameters, or only empty lists rendered as repeated names): no lone '?'
+    return ('?' if prefix else '') + out
+
+
+@harness(PROP, MISC + ':to_query_str', name='to_query_str', setup=_to_query_str_setup)
+def to_query_str(v):
+    n = v.choose(3, 'keys')
+    items = []
+    for i in range(n):
+        k = v.str('key%d' % i)
+        shape = v.choose(5, 'value%d-shape' % i)
+        if shape == 0:
+            val = v.str('value%d' % i)
+        elif shape == 1:
+            val = bool(v.choose(2, 'value%d-bool' % i))
+        elif shape == 2:
+            val = []
+        elif shape == 3:
+            val = [v.str('value%d_0' % i)]
+        else:
+            val = [v.str('value%d_0' % i), v.str('value%d_1' % i)]
+        items.append((k, val))
+    if n == 2:
+        v.assume(Not(items[0][0] == items[1][0]))  # keys of a dict are distinct
+    params = None if (n == 0 and v.choose(2, 'None-instead-of-empty')) else {k: val for k, val in items}
+    cdl = bool(v.choose(2, 'comma_delimited_lists'))
+    prefix = bool(v.choose(2, 'prefix'))
+    out = v.call(params, comma_delimited_lists=cdl, prefix=prefix) if v.choose(2, 'explicit-options') else (
+        v.call(params) if (cdl and prefix) else v.call(params, cdl, prefix))
+    v.check('no-exception', out.exc is None)
+    if out.exc is not None:
+        return
+    want = render_reference(items, cdl, prefix)
+    v.check('renders-name-value-pairs-in-order', str_eq(out.value, want))
+    if n == 0:
+        v.check('no-parameters-give-the-empty-string', out.value == '')
+    v.cover('rendered')
+
+
+# ---------------------------------------------------------------------------
+# bounded stand-in (never counted as proved): exhaustive short inputs against an independent reference
+
+_BOUNDED_SCRIPT = r"""
+import itertools, json, sys
+tier = sys.argv[1]
+import falcon
+from falcon.util import uri, misc
+from falcon import errors
+
+ALPHABET = ['&', '=', ',', '+', '%', '4', '1', 'g', 'a', '\x00', '\xe9']
+HEX = '0123456789abcdefABCDEF'
+impl = 'pure-python' if getattr(uri, '_cy_uri', None) is None else 'cython'
+
+
+def ref_decode(s):
+    # percent- and plus-decoding as UTF-8, malformed escapes kept literally (written from the statement)
+    raw = s.replace('+', ' ').encode('utf-8')
+    out = bytearray()
+    i = 0
+    while i < len(raw):
+        c = raw[i]
+        if c == 0x25 and i + 2 < len(raw) + 0 and i + 2 <= len(raw) - 1 + 0 and chr(raw[i + 1]) in HEX and chr(raw[i + 2]) in HEX:
+            out.append(int(raw[i + 1:i + 3].decode('ascii'), 16))
+            i += 3
+        else:
+            out.append(c)
+            i += 1
+    return out.decode('utf-8', 'replace')
+
+
+def ref_parse(qs, keep, csv):
+    out = {}
+    pos = 0
+    fields = []
+    while True:
+        j = qs.find('&', pos)
+        if j < 0:
+            fields.append(qs[pos:])
+            break
+        fields.append(qs[pos:j])
+        pos = j + 1
+    for field in fields:
+        e = field.find('=')
+        name, value = (field, '') if e < 0 else (field[:e], field[e + 1:])
+        if value == '' and (not keep or name == ''):
+            continue
+        key = ref_decode(name)
+        if csv and ',' in value:
+            elems = value.split(',')
+            if not keep:
+                elems = [x for x in elems if x != '']
+            new = [ref_decode(x) for x in elems]
+        else:
+            new = ref_decode(value)
+        if key not in out:
+            out[key] = new
+        else:
+            old = out[key] if isinstance(out[key], list) else [out[key]]
+            out[key] = old + (new if isinstance(new, list) else [new])
+    return out
+
+
+def strings(maxlen):
+    for n in range(maxlen + 1):
+        for t in itertools.product(ALPHABET, repeat=n):
+            yield ''.join(t)
+
+
+results = []
+
+
+def report(name, bound, cases, failures):
+    results.append({'name': name + ' [' + impl + ' implementation loaded]', 'bound': bound, 'cases': cases, 'failures': failures[:25], 'failures_total': len(failures)})
+
+
+# 1. parser against the reference -----------------------------------------------------------------
+maxlen = 5 if tier == 'thorough' else 4
+cases, failures = 0, []
+for qs in strings(maxlen):
+    for keep in (False, True):
+        for csv in (False, True):
+            cases += 1
+            try:
+                got = uri.parse_query_string(qs, keep_blank=keep, csv=csv)
+            except Exception as e:
+                failures.append({'obligation': 'falcon.util.uri:parse_query_string#parsing-never-raises', 'input': repr((qs, keep, csv)), 'got': repr(e)})
+                continue
+            want = ref_parse(qs, keep, csv)
+            if got != want or type(got) is not dict:
+                failures.append({'obligation': 'falcon.util.uri:parse_query_string#mapping-equals-the-reference-reading', 'input': repr((qs, keep, csv)),
+                                 'got': repr(got), 'want': repr(want)})
+report('C08.bounded.parse_query_string-vs-reference', 'all strings of length <= %d over %r, all four option settings' % (maxlen, ALPHABET), cases, failures)
+
+# 2. every getter on every parameter the parser produced: only 400-class errors escape -----------
+from falcon import testing
+env = testing.create_environ(path='/')
+GETTERS = ['get_param', 'get_param_as_int', 'get_param_as_float', 'get_param_as_bool', 'get_param_as_uuid', 'get_param_as_list',
+           'get_param_as_datetime', 'get_param_as_date', 'get_param_as_json']
+cases, failures, seen = 0, [], set()
+glen = 4 if tier == 'thorough' else 3
+for qs in strings(glen):
+    for keep in (False, True):
+        for csv in (False, True):
+            opts = falcon.RequestOptions()
+            opts.keep_blank_qs_values = keep
+            opts.auto_parse_qs_csv = csv
+            env['QUERY_STRING'] = qs
+            req = falcon.Request(env, options=opts)
+            if req.params != ref_parse(qs, keep, csv):
+                failures.append({'obligation': 'falcon.request:Request.__init__#params-is-what-the-parser-returned', 'input': repr((qs, keep, csv)), 'got': repr(req.params)})
+            for name in list(req.params):
+                for g in GETTERS:
+                    cases += 1
+                    try:
+                        getattr(req, g)(name)
+                    except errors.HTTPBadRequest:
+                        pass
+                    except Exception as e:
+                        key = (g, type(e).__name__)
+                        if key not in seen:
+                            seen.add(key)
+                            failures.append({'obligation': 'falcon.request:Request.%s#escape-only-400-class' % g, 'input': repr((qs, keep, csv, name)), 'got': repr(e)})
+report('C08.bounded.getters-on-parsed-parameters', 'every getter on every name of every query string of length <= %d, all four option settings (first witness per getter and exception type)' % glen, cases, failures)
+
+# 3. to_query_str round trip ------------------------------------------------------------------------
+short1 = list(strings(1))
+short2 = list(strings(2))
+few = ['', ',', '%', 'a'] if tier != 'thorough' else short1
+
+
+def values(strs, elems):
+    for x in strs:
+        yield x
+    for a in elems:
+        for b in elems:
+            yield [a, b]
+
+
+def nameless_blank(d, cdl):
+    # a rendered field '=' (empty name AND empty value) is "nothing" in the reference reading, so it cannot come back:
+    # {'': ''} in both renderings, and {'': [.., '', ..]} when lists are rendered as repeated names
+    val = d.get('')
+    return val == '' or (isinstance(val, list) and not cdl and '' in val)
+
+
+def round_trip(d, cdl, csv, failures):
+    if nameless_blank(d, cdl):
+        return
+    text = misc.to_query_str(d, comma_delimited_lists=cdl, prefix=False)
+    back = uri.parse_query_string(text, keep_blank=True, csv=csv)
+    if back != d:
+        failures.append({'obligation': 'falcon.util.misc:to_query_str#parses-back-to-itself', 'input': repr((d, cdl, csv)), 'rendered': repr(text), 'got': repr(back)})
+    with_prefix = misc.to_query_str(d, comma_delimited_lists=cdl, prefix=True)
+    if with_prefix != '?' + text:
+        failures.append({'obligation': 'falcon.util.misc:to_query_str#renders-name-value-pairs-in-order', 'input': repr((d, cdl)), 'got': repr(with_prefix)})
+
+
+MODES = [(True, True), (False, False), (False, True)]  # (comma_delimited_lists, csv): comma lists need csv parsing
+cases, failures = 0, []
+for k in short2:
+    for val in values(short2, short1):
+        for cdl, csv in MODES:
+            cases += 1
+            round_trip({k: val}, cdl, csv, failures)
+for k1 in short1:
+    for k2 in short1:
+        if k1 >= k2:
+            continue
+        for v1 in values(short1, few):
+            for v2 in values(short1, few):
+                for cdl, csv in MODES:
+                    cases += 1
+                    round_trip({k1: v1, k2: v2}, cdl, csv, failures)
+report('C08.bounded.to_query_str-round-trip',
+       'dicts of 1 key (key, str value of length <= 2, or a two-element list of strings of length <= 1) and 2 keys (length <= 1) over the same alphabet; '
+       'values are what the parser can produce (str, or list of >= 2 str); the empty name with an empty value / empty repeated element is excluded '
+       '(it renders as "=", which the reference reading drops); parsed with keep_blank=True and csv matching the rendering', cases, failures)
+json.dump(results, sys.stdout)
+"""
+
+
+def bounded(tier, seed, overlay_dir):
+    """Bounded stand-in, run in a subprocess on the source-only overlay.  Never counted as proved."""
+    import json
+    import os
+    import subprocess
+
+    env = dict(os.environ, PYTHONPATH=overlay_dir, PYTHONDONTWRITEBYTECODE='1')
+    env.pop('PYTHONHOME', None)
+    py = '/venv/bin/python' if os.path.exists('/venv/bin/python') else 'python3'
+    p = subprocess.run([py, '-B', '-c', _BOUNDED_SCRIPT, 'thorough' if tier == 'thorough' else 'quick'], env=env, capture_output=True, text=True,
+                       timeout=3000, cwd=overlay_dir)
+    if p.returncode != 0:
+        return [{'name': 'C08.bounded', 'bound': '', 'cases': 0, 'failures': [], 'error': (p.stderr or p.stdout)[-2000:]}]
+    return json.loads(p.stdout)
 
 
 ASSUMPTIONS = []
 NOT_DECIDED = []
 TRUSTED = []
-KILLS = []
-HARMLESS = []
+KILLS = [
+    # --- parser -------------------------------------------------------------------------------------------------
+    # split at the LAST '=' instead of the first
+    ('falcon/util/uri.py', "        k, _, v = field.partition('=')\n", "        k, _, v = field.rpartition('=')\n", 'parse_query_string#mapping-equals-the-reference-reading'),
+    # keep_blank polarity
+    ('falcon/util/uri.py', '        if not v and (not keep_blank or not k):\n', '        if not v and (keep_blank or not k):\n', 'parse_query_string#mapping-equals-the-reference-reading'),
+    # decode before the comma split: an escaped comma becomes a delimiter
+    ('falcon/util/uri.py', '                    params[k] = [decode(element) for element in values if element]\n',
+     "                    params[k] = [element for element in decode(v).split(',') if element]\n", 'parse_query_string#mapping-equals-the-reference-reading'),
+    # comma splitting although csv is off (repeated-name branch)
+    ('falcon/util/uri.py', "            old_value = params[k]\n\n            if csv and ',' in v:\n", "            old_value = params[k]\n\n            if ',' in v:\n",
+     'parse_query_string#mapping-equals-the-reference-reading'),
+    # repeated names collected in the wrong order
+    ('falcon/util/uri.py', '                    params[k] = [old_value, v]\n', '                    params[k] = [v, old_value]\n', 'parse_query_string#mapping-equals-the-reference-reading'),
+    ('falcon/util/uri.py', '                    additional_values.insert(0, old_value)\n', '                    additional_values.append(old_value)\n',
+     'parse_query_string#mapping-equals-the-reference-reading'),
+    # names not decoded
+    ('falcon/util/uri.py', '        if is_encoded:\n            k = decode(k)\n', '', 'parse_query_string#mapping-equals-the-reference-reading'),
+    # '+' alone no longer triggers decoding
+    ('falcon/util/uri.py', "    is_encoded = '+' in query_string or '%' in query_string\n", "    is_encoded = '%' in query_string\n", 'parse_query_string#mapping-equals-the-reference-reading'),
+    # --- getters ------------------------------------------------------------------------------------------------
+    # first occurrence instead of the last
+    ('falcon/request.py', '                param = param[-1]\n', '                param = param[0]\n', 'Request.get_param#returns-the-last-occurrence'),
+    # < vs <= on min (int)
+    ('falcon/request.py', "                msg = 'The value must be an integer.'\n                raise errors.HTTPInvalidParam(msg, name)\n\n            if min_value is not None and val < min_value:\n",
+     "                msg = 'The value must be an integer.'\n                raise errors.HTTPInvalidParam(msg, name)\n\n            if min_value is not None and val <= min_value:\n",
+     'Request.get_param_as_int#returns-the-int-of-the-last-occurrence'),
+    # max not enforced (float)
+    ('falcon/request.py', "                msg = 'The value must be a float.'\n                raise errors.HTTPInvalidParam(msg, name)\n\n            if min_value is not None and val < min_value:\n"
+     "                msg = 'The value must be at least ' + str(min_value)\n                raise errors.HTTPInvalidParam(msg, name)\n\n            if max_value is not None and max_value < val:\n",
+     "                msg = 'The value must be a float.'\n                raise errors.HTTPInvalidParam(msg, name)\n\n            if min_value is not None and val < min_value:\n"
+     "                msg = 'The value must be at least ' + str(min_value)\n                raise errors.HTTPInvalidParam(msg, name)\n\n            if max_value is not None and max_value < val and False:\n",
+     'Request.get_param_as_float#above-max-raises-invalid-param'),
+    # store written although the value is rejected (bool)
+    ('falcon/request.py', "                msg = 'The value of the parameter must be \"true\" or \"false\".'\n",
+     "                if store is not None:\n                    store[name] = val_str\n                msg = 'The value of the parameter must be \"true\" or \"false\".'\n",
+     'Request.get_param_as_bool#failure-leaves-store-untouched'),
+    # default returned although the parameter is required
+    ('falcon/request.py', '        if not required:\n            return default\n\n        raise errors.HTTPMissingParam(name)\n\n    @overload\n    def get_param_as_int(\n',
+     '        return default\n\n    @overload\n    def get_param_as_int(\n', 'Request.get_param#absent-and-required-raises-missing-param'),
+    # bool literal sets changed
+    ('falcon/request.py', "TRUE_STRINGS = frozenset(['true', 'True', 't', 'yes', 'y', '1', 'on'])\n", "TRUE_STRINGS = frozenset(['true', 'True', 't', 'yes', 'y', '1', 'on', 'ok'])\n",
+     'Request.get_param_as_bool#unrecognised-value-raises-invalid-param'),
+    ('falcon/request.py', "FALSE_STRINGS = frozenset(['false', 'False', 'f', 'no', 'n', '0', 'off'])\n", "FALSE_STRINGS = frozenset(['false', 'False', 'f', 'no', '0', 'off'])\n",
+     'Request.get_param_as_bool#false-literals-yield-False'),
+    # a transform's ValueError is no longer turned into a 400
+    ('falcon/request.py', "                except ValueError:\n                    msg = 'The value is not formatted correctly.'\n",
+     "                except TypeError:\n                    msg = 'The value is not formatted correctly.'\n", 'Request.get_param_as_list#escape-only-400-class'),
+    # the date getter lets the datetime getter write the store as well
+    ('falcon/request.py', '        date_time = self.get_param_as_datetime(name, format_string, required)\n',
+     '        date_time = self.get_param_as_datetime(name, format_string, required, store)\n', 'Request.get_param_as_date#store-holds-the-value-on-success'),
+    # --- wiring / rendering ---------------------------------------------------------------------------------------
+    ('falcon/request.py', '                    csv=self.options.auto_parse_qs_csv,\n', '', 'Request.__init__#parser-receives-the-text-and-both-option-flags'),
+    ('falcon/util/misc.py', "        if v is True:\n            v = 'true'\n", "        if v is True:\n            v = 'True'\n", 'to_query_str#renders-name-value-pairs-in-order'),
+]
+HARMLESS = [
+    ('falcon/util/uri.py', "    params: dict = {}\n\n    is_encoded = '+' in query_string or '%' in query_string\n",
+     "    is_encoded = '+' in query_string or '%' in query_string\n\n    params: dict = {}\n"),
+    ('falcon/request.py', '            param = params[name]\n            if isinstance(param, list):\n                param = param[-1]\n',
+     '            param = params[name]\n            if isinstance(param, list):\n                occurrences = param\n                param = occurrences[-1]\n'),
+    ('falcon/util/misc.py', "    query_str = '?' if prefix else ''\n", "    query_str = ''\n    if prefix:\n        query_str = '?'\n"),
+]
